@@ -136,6 +136,7 @@ def run(P, R, tier):
     kij_rule(P, R)
     cache_rule(P, R)
     cachereset_rule(P, R)
+    prfallback_rule(P, R)
     quick_rule(P, R)
     prtemp_rule(P, R)
     vmowner_rule(P, R)
@@ -634,3 +635,46 @@ def cachereset_rule(P, R):
                     file=store["file"], line=store["line"], function=store["q"])
     if n < 4:
         R.anchor_missing(RULE, "only %d cache keys found in the calc_PR overloads" % n)
+
+
+def prfallback_rule(P, R):
+    """"the same relations hold for gases used as EQUILIBRIUM_PHASES": PR_P and PR_PHI report, for a gas that is a component of the gas
+    phase in use, the values of that gas phase and, for any other gas, the values the pure-phase calculation stored in the phase
+    (phase::pr_p, pr_phi, valid when phase::pr_in).  In pr_pressure and pr_phi every path that has searched the components of the gas
+    phase without a match must come to the test of phase::pr_in before a default (a literal) is returned - with the pure-phase branch
+    as the `else` of "a gas phase is in use", PR_P / PR_PHI of CH4(g) in EQUILIBRIUM_PHASES were 0 / 1 whenever a GAS_PHASE was present."""
+    RULE = "C19.prfallback"
+    R.rule(RULE, "pr_pressure / pr_phi: a gas not found among the components of the gas phase in use falls back to the pure-phase values before any default", minimum=2)
+    for q in ("Phreeqc::pr_pressure", "Phreeqc::pr_phi"):
+        f = P.one(q)
+        cfg = T.CFG(f)
+
+        def has_member(n, name):
+            return T.is_node(n) and any(y[0] == "Member" and y[2] == name for y in T.walk(n))
+        loops = [i for i, nd in enumerate(cfg.nodes) if T.is_node(nd["n"]) and nd["n"][0] == "Bin" and nd["n"][2] in ("<", "<=", "!=")
+                 and any(y[0] == "Call" and T.callee_name(y) == "Get_gas_comps" for y in T.walk(nd["n"]))]
+        tests = [i for i, nd in enumerate(cfg.nodes) if has_member(nd["n"], "phase::pr_in") and len(nd["succ"]) == 2]
+        if len(loops) != 1 or not tests:
+            R.anchor_missing(RULE, "%s: component loop (%d) or the test of phase::pr_in (%d) not found" % (q, len(loops), len(tests)))
+            continue
+        seen, st, bad = {loops[0]}, [loops[0]], None
+        while st:
+            x = st.pop()
+            nd = cfg.nodes[x]
+            if x in tests:
+                continue
+            n = nd["n"]
+            if T.is_node(n) and n[0] == "Return" and T.is_node(T.strip_casts(n[2])) and T.strip_casts(n[2])[0] in ("Lit", "Paren") and \
+                    not any(y[0] in ("Member", "Call", "Ref") for y in T.walk(n[2])):
+                bad = nd["line"]
+                break
+            for y in nd["succ"]:
+                if y not in seen:
+                    seen.add(y)
+                    st.append(y)
+        inst = q.split("::")[-1]
+        if bad is None:
+            R.ok(RULE, inst, "an unmatched gas reaches the test of phase::pr_in (line %d)" % cfg.nodes[tests[0]]["line"])
+        else:
+            R.violation(RULE, inst, "%s returns the default at line %d for a gas that is not a component of the gas phase in use without looking at the pure-phase values "
+                        "(phase::pr_in): PR_P / PR_PHI of a gas in EQUILIBRIUM_PHASES are 0 / 1 whenever a GAS_PHASE is present" % (inst, bad), file=f["file"], line=bad, function=q)
